@@ -1,6 +1,7 @@
 import Proofs.C18.Fee
 import Proofs.C18.Float
 import Proofs.C18.Funding
+import Proofs.C18.Amount
 /-!
 # C18 — sizes, fees and amounts are exact integer accounting (DESIGN §3 C18)
 
@@ -257,5 +258,126 @@ example : fund ⟨61500, 60000, 1, 10000, some ([0, 20] ++ List.replicate 20 7),
     = .ok ⟨1500, none⟩ := by decide
 example : fund ⟨61000, 60000, 1, 10000, some ([0, 20] ++ List.replicate 20 7), 3000⟩ (fun b => .ok (if b then 141 else 110))
     = .error .value := by decide
+
+/-! ## T5 — amounts and fee-rate units (Decimal = exact rational sign·coeff·10^exp) -/
+
+/-- the constants of amount.py agree with each other: 10^8 satoshi per bitcoin, the quantum is 10^-8,
+    and MAX_MONEY is 21 million of them -/
+theorem amount_constants :
+    Gen.Fee.SATOSHI_PER_BITCOIN = 10 ^ Gen.Fee.BTC_DECIMALS.toNat ∧
+    Gen.Fee.MAX_SATOSHI = Gen.Fee.MAX_BITCOIN * Gen.Fee.SATOSHI_PER_BITCOIN ∧
+    Gen.Fee.MAX_SATOSHI_VALUE = Gen.Fee.MAX_SATOSHI ∧
+    Gen.Fee.MAX_SATOSHI = 2100000000000000 := by decide
+
+/-- `sats_from_btc(btc_from_sats(s)) = s` for every amount in the money range, and `btc_from_sats`
+    refuses everything outside it. -/
+theorem amount_roundtrip (s : Int) :
+    (0 ≤ s ∧ s ≤ 2100000000000000 →
+      ∃ c e, btcFromSats s = .ok (c, e) ∧ satsFromBtc (.fin false c e) = .ok s) ∧
+    (¬ (0 ≤ s ∧ s ≤ 2100000000000000) → btcFromSats s = .error .value) := by
+  have hm : Gen.Fee.MAX_SATOSHI = 2100000000000000 := rfl
+  constructor
+  · rintro ⟨h0, h1⟩
+    obtain ⟨n, rfl⟩ := Int.eq_ofNat_of_zero_le h0
+    have hv : Gen.Fee.valid_sats_amount (n : Int) 0 = .ok (n : Int) := by
+      rw [valid_sats_amount_eq]; simp [hm, h1]
+    refine ⟨(normalize n (-(8 : Nat) : Int)).1, (normalize n (-(8 : Nat) : Int)).2, ?_, ?_⟩
+    · unfold btcFromSats
+      rw [hv]; rfl
+    · have hs := scaled_normalize 8 n
+      have ha := absLe_normalize 8 n 21000000 (by omega)
+      unfold satsFromBtc validBtcAmount
+      have e8 : Gen.Fee.BTC_DECIMALS.toNat = 8 := rfl
+      have eM : Gen.Fee.MAX_BITCOIN.toNat = 21000000 := rfl
+      have hs' : scaled 8 (normalize n (-8)).1 (normalize n (-8)).2 = some n := hs
+      have ha' : absLe (normalize n (-8)).1 (normalize n (-8)).2 21000000 = true := ha
+      simp [e8, eM, ha', hs', bind, Except.bind, pure, Except.pure]
+  · intro h
+    unfold btcFromSats
+    rw [valid_sats_amount_eq]
+    have : ¬ (0 ≤ s ∧ s ≤ Gen.Fee.MAX_SATOSHI) := by rw [hm]; exact h
+    simp [this]; rfl
+
+/-- `sats_from_btc` is exact and refuses the rest: an answer `s` is the amount times 10^8 *exactly*
+    (so a ninth decimal that is not zero is refused, never rounded), lies in the money range, and
+    only a zero may carry a minus sign; NaN and infinities are refused. -/
+theorem sats_from_btc_exact (d : Dec) (s : Int) (h : satsFromBtc d = .ok s) :
+    0 ≤ s ∧ s ≤ 2100000000000000 ∧
+    ∃ neg c e, d = .fin neg c e ∧ (neg = true → c = 0) ∧
+      ((0 ≤ e + 8 ∧ s = c * 10 ^ (e + 8).toNat) ∨ (e + 8 < 0 ∧ (c : Int) = s * 10 ^ (-(e + 8)).toNat)) := by
+  unfold satsFromBtc validBtcAmount at h
+  have e8 : Gen.Fee.BTC_DECIMALS.toNat = 8 := rfl
+  have eM : Gen.Fee.MAX_BITCOIN.toNat = 21000000 := rfl
+  cases d with
+  | nan => cases h
+  | inf _ => cases h
+  | fin neg c e =>
+    simp only [e8, eM] at h
+    by_cases hr : (¬ neg = true ∨ c = 0) ∧ absLe c e 21000000 = true
+    · simp only [hr, and_self, not_true_eq_false, if_false] at h
+      cases hsc : scaled 8 c e with
+      | none => simp [hsc] at h; cases h
+      | some n =>
+        simp only [hsc, Option.isNone_some, Bool.false_eq_true, if_false] at h
+        have hs : s = (n : Int) := by
+          simp only [bind, Except.bind, pure, Except.pure, hsc, Option.getD_some] at h
+          cases h; rfl
+        have hle := scaled_le 8 c e n 21000000 hsc hr.2
+        refine ⟨by omega, by omega, neg, c, e, rfl, ?_, ?_⟩
+        · intro hn; rcases hr.1 with h1 | h1
+          · exact absurd hn h1
+          · exact h1
+        · rcases scaled_some 8 c e n hsc with ⟨a, b⟩ | ⟨a, b⟩
+          · exact Or.inl ⟨a, by rw [hs, b]; simp⟩
+          · exact Or.inr ⟨a, by rw [hs, b]; simp⟩
+    · simp only [hr, not_false_eq_true, if_true] at h
+      cases h
+
+/-- fee-rate units: sat/vB → sat/kvB is exact or refused (`finer than a millisatoshi`), and the
+    sat/vB reading of every rate converts back to the same sat/kvB integer. -/
+theorem feerate_units_roundtrip (k : Nat) :
+    feeRateFromSatsPerVbyte (.fin false (satsPerVbyte k).1 (satsPerVbyte k).2) = .ok (k : Int) := by
+  unfold feeRateFromSatsPerVbyte satsPerVbyte
+  have h3 : scaled 3 (normalize k (-3)).1 (normalize k (-3)).2 = some k := scaled_normalize 3 k
+  simp only [Int.toNat_natCast, h3, Bool.false_eq_true, if_false]
+  exact feeRate_nat k
+
+theorem feerate_from_sats_per_vbyte_exact (d : Dec) (r : Int) (h : feeRateFromSatsPerVbyte d = .ok r) :
+    0 ≤ r ∧ ∃ neg c e, d = .fin neg c e ∧
+      ((0 ≤ e + 3 ∧ r = c * 10 ^ (e + 3).toNat) ∨ (e + 3 < 0 ∧ (c : Int) = r * 10 ^ (-(e + 3)).toNat)) := by
+  unfold feeRateFromSatsPerVbyte at h
+  cases d with
+  | nan => cases h
+  | inf _ => cases h
+  | fin neg c e =>
+    cases hsc : scaled 3 c e with
+    | none => simp [hsc] at h
+    | some n =>
+      simp only [hsc] at h
+      unfold feeRate at h
+      by_cases hlt : (if neg = true then -(n : Int) else (n : Int)) < 0
+      · simp [hlt] at h
+      · simp only [hlt, if_false] at h
+        have hr : r = (n : Int) := by
+          cases h
+          by_cases hn : neg = true
+          · simp only [hn, if_true] at hlt ⊢; omega
+          · simp [hn]
+        refine ⟨by omega, neg, c, e, rfl, ?_⟩
+        rcases scaled_some 3 c e n hsc with ⟨a, b⟩ | ⟨a, b⟩
+        · exact Or.inl ⟨a, by rw [hr, b]; simp⟩
+        · exact Or.inr ⟨a, by rw [hr, b]; simp⟩
+
+-- non-vacuity: 1.5 BTC, 1 satoshi, a ninth decimal, above the cap, -0, 1.5 sat/vB, 0.0001 sat/vB
+example : satsFromBtc (.fin false 15 (-1)) = .ok 150000000 := by decide
+example : satsFromBtc (.fin false 1 (-8)) = .ok 1 := by decide
+example : satsFromBtc (.fin false 1 (-9)) = .error .value := by decide
+example : satsFromBtc (.fin false 2100000000000001 (-8)) = .error .value := by decide
+example : satsFromBtc (.fin true 0 (-3)) = .ok 0 := by decide
+example : btcFromSats 150000000 = .ok (15, -1) := by decide
+example : btcFromSats 10000000000 = .ok (1, 2) := by decide
+example : feeRateFromSatsPerVbyte (.fin false 15 (-1)) = .ok 1500 := by decide
+example : feeRateFromSatsPerVbyte (.fin false 1 (-4)) = .error .value := by decide
+example : satsPerVbyte 1500 = (15, -1) := by decide
 
 end Props.C18
